@@ -10,18 +10,21 @@ MODULES = ["Curtsies.Properties.C20"]
 RULE = ("the decoder's decision tree as in C03 (ascii, latin-1 complete; utf-8 two full levels + boundary alphabets; "
         "three full levels in thorough), every node x full x the three naming modes compared with each other; "
         "every entry of both tables fed whole under every encoding and mode; seeded streams cut under the three "
-        "modes; every valid configuration name (C-a..C-z, M-<0x21..0x7e>, F1..F12, SPECIALS, the empty name) and a "
+        "modes; every valid configuration name (C-a..C-z, M-<0x20..0x7e>, F1..F12, SPECIALS, the empty name) and a "
         "catalogue of 44 invalid or unusual ones (model/implementation correspondence only). non-trivial = distinct "
         "case with at least 2 bytes or a non-ASCII byte, or a configuration name")
-ASSUMPTIONS = ["configuration names are str of code points; str.isdigit is modelled on ASCII digits (names with other "
-               "Unicode digits are outside the model's domain and not generated)",
-               "valid configuration names per the property: C-<letter a..z>, M-<graphic ASCII character>, F1-F12, the "
-               "documented SPECIALS; the property is silent on other names (they are tied, not judged)"]
+ASSUMPTIONS = ["JUDGED DOMAIN of 'every key a configuration file can name': C-<lower-case letter a..z>, M-<printable ASCII "
+               "character 0x20..0x7e, space included>, F1-F12, the documented SPECIALS, and the empty (unbound) name. "
+               "OUTSIDE it: upper-case C-<LETTER> (keymap['C-A'] gives '<Ctrl-A>', which the decoder never produces) and "
+               "M-<non-ASCII character> (keymap['M-\u00e9'] gives '<Esc+\u00e9>', never produced): the property is silent on "
+               "them and on malformed names; they are tied model<->implementation (catalogue), not judged",
+               "configuration names are str of code points; str.isdigit is modelled on ASCII digits (names with other "
+               "Unicode digits are outside the model's domain and not generated)"]
 TRUSTED = c03.TRUSTED
 
 VALID = ([""] + sorted(SPECIALS) + ["C-" + chr(c) for c in range(ord("a"), ord("z") + 1)]
-         + ["M-" + chr(c) for c in range(0x21, 0x7f)] + ["F%d" % i for i in range(1, 13)])
-CATALOGUE = ["x", "C", "M", "F", "C-", "M-", "F-", "c-a", "m-a", "f1", "C-A", "C-Z", "C-1", "C-ab", "C--", "M-ab", "M- ",
+         + ["M-" + chr(c) for c in range(0x20, 0x7f)] + ["F%d" % i for i in range(1, 13)])
+CATALOGUE = ["x", "C", "M", "F", "C-", "M-", "F-", "c-a", "m-a", "f1", "C-A", "C-Z", "C-1", "C-ab", "C--", "M-ab", "M-  ",
              "M-\x7f", "M-\xe9", "C-\xe9", "F0", "F00", "F01", "F012", "F13", "F99", "F123456789", "F1a", "Fa", "F 1",
              "F-1", "F+1", " ", "C_a", "CC-a", "-", "--", "a-C", "F1 ", " F1", "C-[[", "C-^^", "C-i ", "M-M-a"]
 
